@@ -1,5 +1,6 @@
 import Driver.Util
 import Ps3.Model.Viso
+import Ps3.Model.Checked
 import Ps3.Spec.Viso
 namespace Driver
 open Ps3 Ps3.Viso
@@ -46,7 +47,12 @@ def parseOps (s : String) : List VOp :=
 def readObs (img : Image) (w : World) (ps3 : Bool) (off n : Nat) : String × Nat :=
   let d := img.read (contentOf w) off n
   let cls := if off ≥ img.totalSize ∨ n == 0 then "eof" else "ok"
-  (s!"{d.length}/{cls}/{digest (maskImage d off ps3)}", d.length)
+  -- the checked transcription (Model/Checked.lean) must neither fault nor differ
+  match Checked.readC img (contentOf w) off n with
+  | .error _ => ("MODEL-FAULT", 0)
+  | .ok (d', errd) =>
+    if errd || d' != d then ("CHECKED-MISMATCH", 0)
+    else (s!"{d.length}/{cls}/{digest (maskImage d off ps3)}", d.length)
 
 def runOps (img : Image) (w : World) (ps3 : Bool) : List VOp → Nat → List String → List String
   | [], _, acc => acc.reverse
